@@ -4,4 +4,5 @@ extern crate rsdd;
 pub mod core;
 pub mod tt;
 pub mod walk;
+pub mod enumerate;
 pub mod props;
